@@ -250,3 +250,99 @@ fn c02_step_castle_king() {
 fn c02_step_castle_queen() {
     step_obligation(Class::CastleQueen)
 }
+
+// ---- selection by coordinates: State::by_performing_moves against the generator's contract -----------------------------
+
+static mut LEGAL: [u32; 4] = [0; 4]; // three raw move values + how many of them the position's legal list holds
+
+/// contract of MoveGenerator::compute_legal_moves (C01): the list of legal moves with their successors (up to three
+/// arbitrary moves here; their successors are never read by by_performing_moves)
+fn stub_compute_legal_moves(state: &State) -> crate::MoveSet {
+    let z = unsafe { LEGAL };
+    let mut v: Vec<crate::MoveResult> = Vec::with_capacity(3);
+    let mut i = 0;
+    while i < 3 {
+        if (i as u32) < z[3] {
+            v.push(crate::MoveResult(crate::moves::verif_c20::move_from_raw(z[i]), state.clone()));
+        }
+        i += 1;
+    }
+    crate::MoveSet::new(v)
+}
+
+fn stub_vec_push<T, A: std::alloc::Allocator>(v: &mut Vec<T, A>, value: T) {
+    let len = v.len();
+    assert!(len < v.capacity(), "the harness vector has spare capacity");
+    unsafe {
+        std::ptr::write(v.as_mut_ptr().add(len), value);
+        v.set_len(len + 1);
+    }
+}
+
+/// One coordinate query against a legal list of up to three arbitrary moves: exactly one legal move matches => the
+/// result is by_performing_move of THAT move; none matches => UnknownMove; several match => AmbiguousMove (the position
+/// passed in is borrowed immutably, so it is unchanged in every case).
+#[kani::proof]
+#[kani::unwind(8)]
+#[kani::stub(crate::movegen::MoveGenerator::compute_legal_moves, stub_compute_legal_moves)]
+#[kani::stub(std::vec::Vec::push, stub_vec_push)]
+fn c02_select_by_coordinates() {
+    unsafe {
+        LEGAL = kani::any();
+        kani::assume(LEGAL[3] <= 3);
+        kani::assume(crate::moves::verif_c20::valid_raw(LEGAL[0]) && crate::moves::verif_c20::valid_raw(LEGAL[1]) && crate::moves::verif_c20::valid_raw(LEGAL[2]));
+    }
+    let mut p = [0u64; 16];
+    p[6] = bit(4);
+    p[14] = bit(60);
+    let turn = any_color();
+    let state = State::new(board_from(&p), turn, any_rights(), None, Clock { halfmove_clock: 3, fullmove_number: 7 });
+    let (o, d) = (any_square(), any_square());
+    let mut q = MoveQuery::new();
+    q.set_origin(o);
+    q.set_destination(d);
+    let promo = any_opt_kind();
+    if let Some(k) = promo {
+        q.set_promotion(k);
+    }
+    let z = unsafe { LEGAL };
+    // which of the legal moves carry these coordinates (MoveQuery::test is under contract in C12)
+    let mut hits = 0;
+    let mut which = 0;
+    let mut i = 0;
+    while i < 3 {
+        let m = crate::moves::verif_c20::move_from_raw(z[i]);
+        if (i as u32) < z[3] && m.origin() == o && m.destination() == d && promo.map_or(true, |k| k == m.promotion().unwrap_or(m.piece())) {
+            hits += 1;
+            which = i;
+        }
+        i += 1;
+    }
+    let r = State::by_performing_moves(&state, &[q]);
+    if hits == 1 {
+        let m = crate::moves::verif_c20::move_from_raw(z[which]);
+        let expect = State::by_performing_move(&state, &m);
+        match (&r, &expect) {
+            (Ok(a), Ok(b)) => {
+                assert!(a.turn_to_move() == b.turn_to_move() && a.en_passant_target() == b.en_passant_target());
+                assert!(a.clock().halfmove_clock == b.clock().halfmove_clock && a.clock().fullmove_number == b.clock().fullmove_number);
+                let pi = PieceIndex(kani::any());
+                kani::assume(pi.0 < 16);
+                assert!(a.board().piece_occupancy(pi) == b.board().piece_occupancy(pi));
+                assert!(a.castle_rights(Color::White) == b.castle_rights(Color::White));
+                assert!(a.castle_rights(Color::Black) == b.castle_rights(Color::Black));
+            }
+            (Err(a), Err(b)) => assert!(a == b),
+            _ => assert!(false),
+        }
+    } else if hits == 0 {
+        assert!(r == Err(MovePerformError::UnknownMove));
+    } else {
+        assert!(r == Err(MovePerformError::AmbiguousMove));
+    }
+    // the argument is untouched
+    assert!(state.turn_to_move() == turn && state.clock().halfmove_clock == 3 && bb(state.board().occupancy()) == bit(4) | bit(60));
+    kani::cover!(hits == 1, "unique match reachable");
+    kani::cover!(hits == 0, "no match reachable");
+    kani::cover!(hits == 2, "ambiguous reachable");
+}
